@@ -7,7 +7,7 @@ PROPERTY = "C18"
 RULE = (
     "BFS to fixpoint (depth 3) and, for 3 estimators, the FULL tree of 4-call histories over a reduced alphabet, over histories of fit(D)/transform(D)/fit_transform(D) (3-4 data sets each, one collection holding the same array object several times) on REAL "
     "estimators: PersistenceImager() / (pixel_size=0.5) / user kernel; PersistenceLandscaper(num_steps=5) "
-    "with none / start / stop / both fixed by the user, and (flatten=True, hom_deg=1); histories also contain a second live estimator of the same class being constructed and fitted in between; landscaper histories also contain the user fixing / releasing a grid bound after construction (attribute assignment, set_params). Every transition "
+    "with none / start / stop / both fixed by the user, and (flatten=True, hom_deg=1); histories also contain a second live estimator of the same class being constructed and fitted in between; landscaper histories also contain the user fixing / releasing a grid bound after construction (attribute assignment, set_params) and continuing with a scikit-learn clone of the estimator. Every transition "
     "is compared with a fresh estimator replaying the same history: transform repeatable and state-"
     "preserving; fit_transform == fit;transform (output and post-state); imager maps collections element "
     "by element; after any history ending in fit(D) the learned attributes equal those of fit(D) on a "
@@ -155,6 +155,9 @@ def ops_for(init):
         # the user fixes (or releases, None) a grid bound AFTER construction, by attribute assignment or
         # through scikit-learn's set_params: from then on it is a parameter "the user fixed explicitly"
         ops += [["set", "start", -1.0], ["set", "stop", 20.0], ["set_params", "start", -2.5], ["set", "stop", None]]
+        # scikit-learn's clone (what cross_val_score / GridSearchCV do with an estimator they are handed): the
+        # exploration continues with the clone, which has the user's parameters and nothing learned
+        ops += [["clone"]]
     return ops
 
 
@@ -261,6 +264,13 @@ def do(ctx, est, init, op, count=True):
     if op[0] == "set_params":
         est.set_params(**{op[1]: op[2]})
         return None
+    if op[0] == "clone":
+        from sklearn.base import clone
+
+        c = clone(est)
+        est.__dict__.clear()
+        est.__dict__.update(c.__dict__)      # the same Python object now IS the clone
+        return None
     d = data_for(init, op[1])
     if count:
         ctx.trans()
@@ -311,7 +321,7 @@ def run_history(case, ctx):
             if not close_state(pre, post) or pre != post:
                 bad("other-object-interferes", "constructing / fitting ANOTHER estimator changed this estimator's state", post, pre)
             continue
-        if op[0] in ("set", "set_params"):
+        if op[0] in ("set", "set_params", "clone"):
             continue
         if op[0] == "transform":
             # repeatable, does not alter the fitted state
@@ -371,7 +381,10 @@ def run_history(case, ctx):
     # a history in which ANOTHER estimator was created is explored further on its own (it reaches the same
     # public state by construction; whether the futures agree is exactly what is to be found out)
     n_other = min(2, sum(1 for o in ops if o[0] == "other"))
-    return (init["cls"], repr(sorted(init["kw"].items(), key=str)), repr(sorted(st.items())), repr(fixed), n_other)
+    # likewise a history that went through a clone: by the reference model the clone is in the state of a fresh
+    # estimator with the user's parameters, whether its future agrees is what is to be found out
+    n_clone = min(1, sum(1 for o in ops if o[0] == "clone"))
+    return (init["cls"], repr(sorted(init["kw"].items(), key=str)), repr(sorted(st.items())), repr(fixed), n_other, n_clone)
 
 
 def run_case(case, ctx):
